@@ -390,6 +390,14 @@ func (fc *fileCtx) scan(n ast.Node, o *ops) {
 					switch {
 					case sel.Sel.Name == "Wait" && (rt == "sync.WaitGroup" || rt == "sync.Cond"):
 						o.hit(fc, x, nil, false)
+					case sel.Sel.Name == "Lock" && rt == "sync.Locker" && pure(sel.X):
+						// e.g. cond.L.Lock(): the Locker is almost always a *sync.Mutex; simrt.LockLocker uses TryLock when it has one
+						o.hit(fc, x, nil, true)
+						if !fc.lockDone[x] {
+							fc.lockDone[x] = true
+							fc.replace(x.Pos(), x.End(), fmt.Sprintf("simrt.LockLocker(%q, %s)", fc.site(x), fc.text(sel.X)))
+							fc.note("lock", fc.site(x))
+						}
 					case (sel.Sel.Name == "Lock" || sel.Sel.Name == "RLock") && (rt == "sync.Mutex" || rt == "sync.RWMutex"):
 						o.hit(fc, x, nil, true)
 						// T5: a blocked sync.Mutex.Lock is not durably blocked for synctest, so a goroutine sleeping on the
